@@ -11,7 +11,7 @@ pub fn def() -> CheckDef {
         meta: CheckMeta {
             id: "C05",
             level: "exploration",
-            rule: "after every commit of generated histories (C01 grammar, plus bucket-deletion storms: several delete_bucket at different nesting levels in one transaction incl. nested-then-ancestor and delete-recreate-delete; plus mixed buckets of 12-120 alternating key/value pairs and touched sub-buckets with delete runs; plus all deletion subsets of small multi-level trees; plus histories whose free list sweeps slowly up and down through the capacity of one and of two free-list pages, half of them with a close and reopen after every commit) the raw file is parsed by the independent checker (exact page accounting over [2, high-water mark): reachable once / free-list page / free-list entry; ids, types, element bounds, key order within and across pages, separators bounding subtrees), DB::check() is run, and both must agree. Non-trivial = case with a bucket deletion at depth >= 1, or a merge / split / root collapse / overflow value / file growth observed between commits. Distinct = hash of the case.",
+            rule: "after every commit of generated histories (C01 grammar, plus bucket-deletion storms: several delete_bucket at different nesting levels in one transaction incl. nested-then-ancestor and delete-recreate-delete; plus mixed buckets of 12-120 alternating key/value pairs and touched sub-buckets with delete runs; plus all deletion subsets of small multi-level trees; plus histories whose free list sweeps slowly up and down through the capacity of one and of two free-list pages, half of them with a close and reopen after every commit; plus 48 histories in which a bucket of N page-sized values is deleted under a short-lived reader (free-list run taken from the end of the file, N sweeping the id count through 123 and 251), followed by reopen and further commits) the raw file is parsed by the independent checker (exact page accounting over [2, high-water mark): reachable once / free-list page / free-list entry; ids, types, element bounds, key order within and across pages, separators bounding subtrees), DB::check() is run, and both must agree. Non-trivial = case with a bucket deletion at depth >= 1, or a merge / split / root collapse / overflow value / file growth observed between commits. Distinct = hash of the case.",
             assumptions: &[
                 "the independent parser encodes the pinned layout (DESIGN.md 1.1) and was validated on healthy and corrupted files",
                 "x86_64 Linux, tmpfs scratch",
@@ -69,6 +69,16 @@ fn shard(ctx: &ShardCtx, known: &Known) -> ShardOut {
         note_current(ctx, "history", &case);
         let mut v = verdict(&case, &opts, &commits);
         v.classes.push("free list swept through its page-capacity boundaries".into());
+        record_case(ctx, &mut out, known, "history", &case, v);
+    }
+    // free lists that exactly fill a run taken from the end of the file, then reopen + commits
+    for i in 0..3u16 {
+        let k = ctx.shard as u16 * 3 + i; // 0..47
+        let n = if k < 24 { 102 + k } else { 230 + (k - 24) };
+        let case = crate::gen::exactfit_freelist_history(n);
+        note_current(ctx, "history", &case);
+        let mut v = verdict(&case, &opts, &commits);
+        v.classes.push("bucket of N pages deleted, free-list run from the end of the file, reopen".into());
         record_case(ctx, &mut out, known, "history", &case, v);
     }
     if ctx.tier == Tier::Thorough {
